@@ -73,6 +73,41 @@ Record cred := MkCred {
   cr_id : string; cr_sec : string;
   cr_assert : option (option string)
 }.
+(* The Basic header on the wire.  RFC 6749 2.3.1: client id and secret are each encoded with the
+   application/x-www-form-urlencoded algorithm and the results are user name and password of the
+   header; the server undoes that: '+' is a space, %XY (two hex digits, either case) is the byte XY,
+   anything else stands for itself, a '%' not followed by two hex digits is malformed.  Written from
+   the RFC / the HTML form-encoding rules, not from url.QueryUnescape.  [wire_basic hi hs] is the
+   identity a request with the header texts hi, hs presents (the cases carry the header texts, so
+   the decoding is done here and not by the driver); None = malformed (never generated). *)
+Definition hex_val (c : ascii) : option nat :=
+  let n := nat_of_ascii c in
+  if (48 <=? n) && (n <=? 57) then Some (n - 48)
+  else if (65 <=? n) && (n <=? 70) then Some (n - 55)
+  else if (97 <=? n) && (n <=? 102) then Some (n - 87)
+  else None.
+Fixpoint form_unescape (s : string) : option string :=
+  match s with
+  | EmptyString => Some EmptyString
+  | String c r =>
+      if Ascii.eqb c "+"%char then option_map (String " "%char) (form_unescape r)
+      else if Ascii.eqb c "%"%char then
+        match r with
+        | String h1 (String h2 r') =>
+            match hex_val h1, hex_val h2 with
+            | Some a, Some b => option_map (String (ascii_of_nat (16 * a + b))) (form_unescape r')
+            | _, _ => None
+            end
+        | _ => None
+        end
+      else option_map (String c) (form_unescape r)
+  end.
+Definition wire_basic (hi hs : string) : option (string * string) :=
+  match form_unescape hi, form_unescape hs with
+  | Some i, Some s => Some (i, s)
+  | _, _ => None
+  end.
+
 Definition NoCred : cred := MkCred None "" "" None.
 Definition Basic (id sec : string) : cred := MkCred (Some (id, sec)) "" "" None.
 Definition Post (id sec : string) : cred := MkCred None id sec None.
@@ -172,6 +207,12 @@ Inductive place :=
 | P_grant_query       (* grant_type in the query string only, the rest in the body *)
 | P_grant_conflict    (* body as usual, the query string carries another grant_type *)
 | P_field_conflict    (* the body carries a decoy code / refresh_token, the query string the real one *)
+| P_stray (names : list string)
+                      (* everything in the body, PLUS the named parameters, which this grant does not define
+                         (a refresh request with code_verifier / code / redirect_uri, a code exchange with
+                         refresh_token / scope, username, password, resource ... - in the body or the query
+                         string): the token endpoint reads what the grant defines and nothing else, so the
+                         machine answers as for P_body (C04_placement_irrelevant, C07_stray_irrelevant) *)
 | P_overlap.          (* schedule rather than placement: the request (everything in the body) was SENT BEFORE the
                          operation that precedes it in the history and was in flight - past its client
                          authentication, about to make its first state-dependent storage call (code / refresh
@@ -188,13 +229,13 @@ Definition form_last {A} (p : param A) : option A := match snd p with Some v => 
 
 Definition place_grant (pl : place) (g : grant) : param grant :=
   match pl with
-  | P_body | P_field_conflict | P_overlap => (Some g, None)
+  | P_body | P_field_conflict | P_overlap | P_stray _ => (Some g, None)
   | P_query | P_grant_query => (None, Some g)
   | P_grant_conflict => (Some g, Some (other_grant g))
   end.
 Definition place_field {A} (pl : place) (v decoy : A) : param A :=
   match pl with
-  | P_body | P_grant_query | P_grant_conflict | P_overlap => (Some v, None)
+  | P_body | P_grant_query | P_grant_conflict | P_overlap | P_stray _ => (Some v, None)
   | P_query => (None, Some v)
   | P_field_conflict => (Some decoy, Some v)
   end.
@@ -217,6 +258,12 @@ Inductive op :=
 | Callback (req : nat)
 | TokenCode (pl : place) (f : option smethod) (c : cred) (code : option nat) (uri ver : string)
 | TokenRefresh (pl : place) (c : cred) (rt : option nat) (scopes : list string)
+| TokenRefreshRF (pl : place) (c : cred) (rt : option nat) (scopes : list string)
+                                     (* a refresh request DURING WHICH THE STORAGE REFUSES THE ROTATION:
+                                        Storage.CreateAccessAndRefreshTokens fails (the presented token was rotated by a
+                                        competing request, revoked or expired after the lookup; a transient fault).  No
+                                        rotation, no success: whatever the request would have been answered, it is not
+                                        answered with tokens, and nothing changes *)
 | DropRefresh (client : string)      (* test side: the client's registration loses the refresh_token grant *)
 | DropGrants (client : string)      (* test side: the registration is left with NO grant type at all (empty list) *)
 | RevokeRT (rt : nat).               (* storage side: refresh token rt is revoked / expires: from now on
@@ -639,6 +686,14 @@ Definition step (H : string -> string) (cf : cfg) (r : router) (s : st) (o : op)
           end
       | _ => (s, err r E_unsupported)
       end
+  | TokenRefreshRF pl cr rt scopes =>
+      (s, match snd (match r with
+                     | Provider => prov_refresh cf s cr (read_field pl rt decoy_id) scopes
+                     | Legacy => legacy_refresh cf s cr (read_field pl rt decoy_id) scopes
+                     end) with
+          | OTokens _ => err r E_server       (* the storage's error surfaces as server_error *)
+          | x => match read_grant pl G_refresh with Some G_refresh => x | _ => err r E_unsupported end
+          end)
   | DropRefresh cl =>
       ({| reqs := reqs s; codes := codes s; rtoks := rtoks s; next := next s; ncode := ncode s;
           norefresh := cl :: norefresh s |}, ODone)
